@@ -63,6 +63,13 @@ Templates == <<
    st |-> <<T("if true { "), M("continue"), T(" }\n")>>],
   [n |-> "condition",    msg |-> "Condition must be a `bool`",
    st |-> <<T("if "), M("3"), T(" { 1 } else { 2 }\n")>>],
+  \* the offending token is a numeric literal written with digit separators
+  [n |-> "condition-sep", msg |-> "Condition must be a `bool`",
+   st |-> <<T("if "), M("1_000"), T(" { 1 } else { 2 }\n")>>],
+  [n |-> "annotation-sep", msg |-> "Variable and assignment do not match",
+   st |-> <<T("let y: "), M("string"), T(" = "), M("1_000_000"), T("\n")>>],
+  [n |-> "annotation-fsep", msg |-> "Variable and assignment do not match",
+   st |-> <<T("let y: "), M("string"), T(" = "), M("3.141_592"), T("\n")>>],
   [n |-> "if-branches",  msg |-> "Branches of if-else expression do not match",
    st |-> <<T("let v = if true { "), M("1"), T(" } else { "), M("\"x\""), T(" }\n")>>],
   [n |-> "return-type",  msg |-> "Conflicting types",
